@@ -512,6 +512,12 @@ fn main() {
                             sc.acts[*pos] = Act::Frame { id: *id, body };
                             run(sc, &mut r);
                         }
+                        // the expected frame left out
+                        {
+                            let p = base_params(&mut r, intent);
+                            let mut sc = build2("C06", &mut r, &p, probe_secret.clone(), format!("{:?} step {} omitted", intent, k));
+                            if let Act::Frame { .. } = sc.acts[*pos].clone() { sc.acts.remove(*pos); run(sc, &mut r); }
+                        }
                         // the expected frame sent twice
                         let p = base_params(&mut r, intent);
                         let mut sc = build2("C06", &mut r, &p, probe_secret.clone(), format!("{:?} step {} repeated", intent, k));
